@@ -1,1 +1,127 @@
-(* Props/C07.v -- stub, to be filled *)
+(* C07 -- parsing preserves every declared element of an ASN.1 module.
+   Statements only; models in Front/Lex.v, Front/Parse.v, Front/Resolve.v, printers in Front/Print.v, proofs in
+   Front/ParseProofs.v.
+
+   PARTIAL.  Covered productions of  parse_X (print_X x ++ rest) = POk (x, rest):
+     * Tag  (UNIVERSAL / APPLICATION / PRIVATE / context-specific, every numeral FromStr accepts), for every rest;
+     * "[ tag ] word" in front of a type (next_with_opt_tag), tag optional, for every rest.
+   NOT covered by theorems: SIZE, INTEGER ranges and named numbers, ENUMERATED, literals, OIDs, imports and the
+   mutually recursive type grammar (components / CHOICE / OF), module level; these are covered by the differential
+   tie of whole modules (op 3301: the model's dump equals the crate's) and by the Python oracle canon(A) only.
+   Refuted classes: one vm_compute witness each on the whole front-end model (tokenizer, parser, resolver). *)
+From Coq Require Import String.
+From A1 Require Import Front.Lex Front.Parse Front.Print Front.ParseProofs Front.Resolve Extract.OpsParse.
+Local Open Scope N_scope.
+
+Theorem C07_parse_print_tag_partial : forall t num rest,
+  parse_u64 num = Some (tag_number t) ->
+  read_tag (print_tag t num ++ rest) = POk (t, rest).
+Proof. exact read_tag_print. Qed.
+
+Theorem C07_parse_print_opt_tag_partial : forall t num w rest,
+  (forall tg, t = Some tg -> parse_u64 num = Some (tag_number tg)) ->
+  next_with_opt_tag (print_opt_tag t num ++ T w :: rest) = POk (T w, t, rest).
+Proof. exact next_with_opt_tag_print. Qed.
+
+(* non-vacuity: [APPLICATION 007] in front of BOOLEAN *)
+Example C07_nonvacuous :
+  parse_u64 (s2n "007") = Some (tag_number (TagApplication 7)) /\
+  next_with_opt_tag (print_opt_tag (Some (TagApplication 7)) (s2n "007") ++ T (s2n "BOOLEAN") :: [P C_RBRACE])
+  = POk (T (s2n "BOOLEAN"), Some (TagApplication 7), [P C_RBRACE]).
+Proof. split; vm_compute; reflexivity. Qed.
+
+(* ---- witnesses ---- *)
+
+Definition resolved (s : string) : option (amodel rasn) :=
+  match tokenize dev_mode (s2n s) with
+  | Ok ts => match parse ts with
+             | POk u => match resolve_single u with ROk r => Some r | _ => None end
+             | _ => None
+             end
+  | _ => None
+  end.
+
+Definition def_types (s : string) : option (list rty) :=
+  match resolved s with
+  | Some r => Some (map (fun d => snd (fst (snd d))) (m_definitions r))
+  | None => None
+  end.
+
+Definition parse_error_kind (s : string) : option N :=
+  match tokenize dev_mode (s2n s) with
+  | Ok ts => match parse ts with PErr k _ => Some k | _ => None end
+  | _ => None
+  end.
+
+(* the lower bound 0 is dropped: INTEGER (0..MAX) = INTEGER *)
+Example C07_refuted_integer_0_max_becomes_unconstrained :
+  def_types "M DEFINITIONS ::= BEGIN A ::= INTEGER (0..MAX) B ::= INTEGER C ::= INTEGER (1..MAX) END"
+  = Some [TInteger (None, None, false) []; TInteger (None, None, false) []; TInteger (Some 1%Z, None, false) []].
+Proof. vm_compute. reflexivity. Qed.
+
+Example C07_refuted_size_0_max_becomes_unconstrained :
+  def_types "M DEFINITIONS ::= BEGIN A ::= OCTET STRING (SIZE(0..MAX)) B ::= OCTET STRING (SIZE(1..MAX)) END"
+  = Some [TOctetString SAny; TOctetString (SRange 1 9223372036854775807 false)].
+Proof. vm_compute. reflexivity. Qed.
+
+(* marker before the first component and marker after it give the same model *)
+Example C07_refuted_marker_before_first_component :
+  def_types "M DEFINITIONS ::= BEGIN A ::= SEQUENCE { ..., a BOOLEAN } END"
+  = def_types "M DEFINITIONS ::= BEGIN A ::= SEQUENCE { a BOOLEAN, ... } END" /\
+  def_types "M DEFINITIONS ::= BEGIN A ::= SEQUENCE { ... } END" = Some [TSequence [] (Some 0)].
+Proof. split; vm_compute; reflexivity. Qed.
+
+(* { a, ..., b, ..., c }: b is an addition, c a root component; recorded: extension after index 1 *)
+Example C07_refuted_second_extension_marker_overwrites_first :
+  def_types "M DEFINITIONS ::= BEGIN A ::= SEQUENCE { a BOOLEAN, ..., b NULL, ..., c BOOLEAN } END"
+  = def_types "M DEFINITIONS ::= BEGIN A ::= SEQUENCE { a BOOLEAN, b NULL, ..., c BOOLEAN } END".
+Proof. vm_compute. reflexivity. Qed.
+
+Example C07_refuted_with_components_dropped :
+  def_types "M DEFINITIONS ::= BEGIN A ::= B (WITH COMPONENTS { ..., a PRESENT }) END"
+  = def_types "M DEFINITIONS ::= BEGIN A ::= B END".
+Proof. vm_compute. reflexivity. Qed.
+
+(* a reference to the type named Integer is read as the builtin: the constraint (0..5) is gone *)
+Example C07_refuted_type_reference_read_as_keyword :
+  def_types "M DEFINITIONS ::= BEGIN Integer ::= INTEGER (0..5) A ::= Integer END"
+  = Some [TInteger (Some 0%Z, Some 5%Z, false) []; TInteger (None, None, false) []].
+Proof. vm_compute. reflexivity. Qed.
+
+(* the value assignment named `end` ends the module: B is dropped without an error *)
+Example C07_refuted_assignment_named_end_truncates_module :
+  def_types "M DEFINITIONS ::= BEGIN A ::= BOOLEAN end INTEGER ::= 5 B ::= NULL END" = Some [TBoolean].
+Proof. vm_compute. reflexivity. Qed.
+
+(* SIZE(0..MAX, ...) is rejected (ExpectedSeparatorGot ')'), SIZE(1..MAX, ...) is accepted *)
+Example C07_refuted_size_0_max_extensible_rejected :
+  parse_error_kind "M DEFINITIONS ::= BEGIN A ::= OCTET STRING (SIZE(0..MAX, ...)) END" = Some E_EXPECTED_SEPARATOR_GOT /\
+  def_types "M DEFINITIONS ::= BEGIN A ::= OCTET STRING (SIZE(1..MAX, ...)) END"
+  = Some [TOctetString (SRange 1 9223372036854775807 true)].
+Proof. split; vm_compute; reflexivity. Qed.
+
+(* '101'B and '00000101'B are the same default value: the bit length is lost *)
+Example C07_refuted_bit_literal_right_aligned_length_lost :
+  def_types "M DEFINITIONS ::= BEGIN A ::= SEQUENCE { a BIT STRING DEFAULT '101'B } END"
+  = def_types "M DEFINITIONS ::= BEGIN A ::= SEQUENCE { a BIT STRING DEFAULT '00000101'B } END".
+Proof. vm_compute. reflexivity. Qed.
+
+Example C07_refuted_module_name_suffix_stripped :
+  match resolved "Proto-Module DEFINITIONS ::= BEGIN A ::= BOOLEAN END" with
+  | Some r => m_name r = s2n "Proto-"
+  | None => False
+  end.
+Proof. vm_compute. reflexivity. Qed.
+
+Print Assumptions C07_parse_print_tag_partial.
+Print Assumptions C07_parse_print_opt_tag_partial.
+Print Assumptions C07_refuted_integer_0_max_becomes_unconstrained.
+Print Assumptions C07_refuted_size_0_max_becomes_unconstrained.
+Print Assumptions C07_refuted_marker_before_first_component.
+Print Assumptions C07_refuted_second_extension_marker_overwrites_first.
+Print Assumptions C07_refuted_with_components_dropped.
+Print Assumptions C07_refuted_type_reference_read_as_keyword.
+Print Assumptions C07_refuted_assignment_named_end_truncates_module.
+Print Assumptions C07_refuted_size_0_max_extensible_rejected.
+Print Assumptions C07_refuted_bit_literal_right_aligned_length_lost.
+Print Assumptions C07_refuted_module_name_suffix_stripped.
